@@ -20,6 +20,8 @@ type c16Case struct {
 	Schedule  run.Schedule `json:"schedule"`
 	Transient bool         `json:"transient"` // fault, then Resume more bytes, then fault forever
 	Resume    int          `json:"resume"`
+	// ErrWithData: the reader returns the failure together with the last bytes before it, (n > 0, err)
+	ErrWithData bool `json:"err_with_data,omitempty"`
 	// OnlyAt restricts the enumeration to one position (used by shrunk replays); -1 = all positions
 	OnlyAt int `json:"only_at"`
 }
@@ -39,6 +41,7 @@ func genC16(t *rapid.T) c16Case {
 	}
 	c.Transient = rapid.Bool().Draw(t, "transient")
 	c.Resume = rapid.IntRange(1, 12).Draw(t, "resume")
+	c.ErrWithData = rapid.IntRange(0, 2).Draw(t, "errWithData") == 0
 	return c
 }
 
@@ -71,6 +74,9 @@ func checkC16(c c16Case) obs.Result {
 	if c.Transient {
 		classes = append(classes, "transient")
 	}
+	if c.ErrWithData {
+		classes = append(classes, "error-with-data")
+	}
 	positions := 0
 	maskedEOF := 0
 	for p := 0; p <= len(in); p++ {
@@ -83,9 +89,10 @@ func checkC16(c c16Case) obs.Result {
 			resume = c.Resume
 		}
 		fr := run.NewFaultReader(in, c.Schedule, p, resume)
+		fr.WithData = c.ErrWithData
 		got, terr := run.Transcript(sch, fr, run.Opts{MaxReads: n + 3, ExtraRead: 2})
 		describe := func() string {
-			return fmt.Sprintf("fault at byte %d of %d (transient=%v resume=%d), schedule %+v, input %q", p, len(in), c.Transient, c.Resume, c.Schedule, in)
+			return fmt.Sprintf("fault at byte %d of %d (transient=%v resume=%d with-data=%v), schedule %+v, input %q", p, len(in), c.Transient, c.Resume, c.ErrWithData, c.Schedule, in)
 		}
 		if terr != nil {
 			tail := got
@@ -120,7 +127,10 @@ func checkC16(c c16Case) obs.Result {
 			}
 		}
 		if got[ti].ErrClass == "eof" {
+			// the reader failed, yet the transform reports a clean end of input: the failure was swallowed and
+			// whatever followed is silently missing
 			maskedEOF++
+			return obs.Violationf("the input reader failed but the transform ended with a clean io.EOF instead of a fatal error: %s\nfaulty transcript: %+v\nfault-free transcript: %+v", describe(), got, ref)
 		}
 		// every result before the terminal one, except possibly the last, equals the fault-free run
 		upto := ti - 1 // index of the last result that may differ
